@@ -263,22 +263,48 @@ func c12Thresholds(c *Ctx) {
 		r.OK("C12.thresholds.one", "", "the constant 1 of the target hash is decided as part of C12.thresholds.target-hash (folded value)")
 	}
 
+	// the threshold routines are analysed from their call in Mine, with their parameters bound to the arguments: the
+	// terms below are in Mine's vocabulary (p2 = data, p3 = target score) whatever the routines take (the data slice,
+	// or the message length computed by the caller)
+	boundFromMine := func(h *ssa.Function) *ana.Builder {
+		mf := c.P.Func("pkg/pow/v2", "Worker.Mine")
+		if mf == nil || h == nil {
+			return nil
+		}
+		mbb := ana.NewBuilder(c.P, mf)
+		for _, ci := range ana.Calls(mf) {
+			if ana.StaticRepoCallee(ci.Common()) == h {
+				if call := stripObj(mbb.CallTermAt(ci)); call.Op == "call" && len(call.Args) == len(h.Params) {
+					return boundBuilderP(c.P, call)
+				}
+			}
+		}
+		return nil
+	}
 	if f := c.fn("pkg/pow/v2", "targetHash"); f != nil {
-		b := ana.NewBuilder(c.P, f.Function)
+		b := boundFromMine(f.Function)
+		if b == nil {
+			r.Undec("C12.thresholds.target-hash", c.P.Pos(f.Function.Pos()), "targetHash is not called by Mine")
+			b = ana.NewBuilder(c.P, f.Function)
+		}
 		for _, e := range ana.Exits(f.Function) {
 			if e.Panic {
 				continue
 			}
 			t := b.Of(e.Results[0], e.Instr)
-			want := "obj(alloc<math/big.Int>, call<(*math/big.Int).SetUint64>(self, p1), call<(*math/big.Int).Mul>(self, self, call<math/big.NewInt>(conv<int64>(bin<+>(len(p0), 8)))), call<(*math/big.Int).Add>(self, self, call<math/big.NewInt>(1)), call<(*math/big.Int).Quo>(self, load(global<" + v2Pkg + "maxHash>), self))"
+			want := "obj(alloc<math/big.Int>, call<(*math/big.Int).SetUint64>(self, p3), call<(*math/big.Int).Mul>(self, self, call<math/big.NewInt>(conv<int64>(bin<+>(len(p2), 8)))), call<(*math/big.Int).Add>(self, self, call<math/big.NewInt>(1)), call<(*math/big.Int).Quo>(self, load(global<" + v2Pkg + "maxHash>), self))"
 			_, ok := ana.Match(want, t)
 			r.Check(ok, "C12.thresholds.target-hash", c.ipos(e.Instr), "target = Quo(3^243, t·(len+8) + 1) %s", ana.Explain(want, t))
 		}
 	}
 	if f := c.fn("pkg/pow/v2", "sufficientTrailingZeros"); f != nil {
 		fn := f.Function
-		b := ana.NewBuilder(c.P, fn)
-		lx := "bin<*>(conv<uint64>(bin<+>(len(p0), 8)), p1)"
+		b := boundFromMine(fn)
+		if b == nil {
+			r.Undec("C12.thresholds.sufficient-zeros", c.P.Pos(fn.Pos()), "sufficientTrailingZeros is not called by Mine")
+			b = ana.NewBuilder(c.P, fn)
+		}
+		lx := "bin<*>(conv<uint64>(bin<+>(len(p2), 8)), p3)"
 		v := "phi(1, bin<*>(cycle, 3))"
 		hit := plainEdges(edgesMatching(b, "bin<>=>("+v+", "+lx+")"))
 		in := len(edgesMatching(b, "bin<<=>(ind<+1>(0), 40)")) == 1
@@ -286,7 +312,7 @@ func c12Thresholds(c *Ctx) {
 		okS, ok41 := false, false
 		for _, e := range ana.Exits(fn) {
 			if e.Panic {
-				es := plainEdges(edgesMatching(b, "bin<<>(bin<+>(bin</>(18446744073709551614, conv<uint64>(bin<+>(len(p0), 8))), 1), p1)"))
+				es := plainEdges(edgesMatching(b, "bin<<>(bin<+>(bin</>(18446744073709551614, conv<uint64>(bin<+>(len(p2), 8))), 1), p3)"))
 				r.Check(exitMustPass(fn, e, es), "C12.thresholds.overflow-guard", c.ipos(e.Instr), "panics only when len·t would not fit 64 bits")
 				continue
 			}
@@ -424,10 +450,10 @@ func c12Worker(c *Ctx) {
 	for _, ci := range ana.Calls(mine) {
 		// computed by Mine from its own arguments (and kept in a variable or handed straight to the workers)
 		t := mb.CallTermAt(ci)
-		if matches("call<"+c12Name(c, "sufficientTrailingZeros")+">(p2, p3)", t) {
+		if t.Is("call", c12Name(c, "sufficientTrailingZeros")) {
 			sCell = true
 		}
-		if matches("call<"+c12Name(c, "targetHash")+">(p2, p3)", t) {
+		if t.Is("call", c12Name(c, "targetHash")) {
 			tCell = true
 		}
 	}
